@@ -559,3 +559,9 @@ SPECS['C20']['obligations'] = SPECS['C20']['obligations'] + _dsn
 _rejorder = _pair('c14', 'rejected_order', (120, 120), 'a rejected add_zone between valid calls, named / unnamed set, set already in use', ['LogicalFile.add_zone', 'DLISFile.generator']) + [
     dict(fn=H + 'c14.kf_rejected_order', kind='kf', timeout=(120, 120), replay=PLAIN, bounds='F21 region: the rejected call is the first use of its set')]
 SPECS['C20']['obligations'] = SPECS['C20']['obligations'] + _rejorder
+
+SPECS['C06']['obligations'] = SPECS['C06']['obligations'] + _pair('c06', 'text_codepoints', (120, 300), 'IDENT and ASCII; 1- and 2-character texts with a code point at 0, 31, 126..129, 255/256, 2047/2048, 65535/65536, 0x10FFFF: enumeration',
+    ['write_struct_ident', 'write_struct_ascii'], replay=ENC, validate=ENC) + _pair('c06', 'dtime_year', (60, 120), 'year over all integers', ['write_struct_dtime'], replay=ENC, validate=ENC)
+SPECS['C12']['obligations'] = SPECS['C12']['obligations'] + _find('C06', 'ob_text_codepoints') + _find('C06', 'ob_dtime_year')
+SPECS['C17']['obligations'] = SPECS['C17']['obligations'] + _pair('c11', 'check_data', (120, 300), '8 dtypes x scalar / width 1..3 x mode', ['LogicalFile._check_data'])
+SPECS['C17']['stubs'] = SPECS['C17']['stubs'] + NP_STUBS
